@@ -175,6 +175,7 @@ PROPS["C03"]["parts"].append(dict(name="bus03", domain="bus", domain_module="bus
 # C09: a store closed by a Shutdown that gave up would swallow the records of everything published afterwards
 PROPS["C09"]["parts"].append(dict(name="shutdown09", domain="shutdown", domain_module="shutdown", gen=shutdown.gen, n_quick=20, n_thorough=400, chunk=8, jobs=8))
 PROPS["C03"]["parts"].append(dict(name="livechain03", domain="resume", domain_module="resume", gen=resume.gen_livechain, n_quick=8, n_thorough=200, chunk=4))
+PROPS["C05"]["parts"].append(dict(name="livepanic05", domain="resume", domain_module="resume", gen=resume.gen_livepanic, n_quick=10, n_thorough=200, chunk=5))
 PROPS["C03"]["parts"].append(dict(name="shutdown03", domain="shutdown", domain_module="shutdown", gen=shutdown.gen, n_quick=20, n_thorough=400, chunk=8, jobs=8))
 
 # C04 on the sequential machine as well: once handlers with filters, dead contexts (cancelled and deadline-expired), the
@@ -228,7 +229,7 @@ _EXTRA_RULE = {
  "C16": " + rings of raw upcasters returning each other's sources over an acyclic registered graph + chains whose first step races a ClearUpcasts",
  "C17": " + upcasters racing a ClearUpcasts against their own chain + the same stored event object replayed again after the registry changed",
  "C18": " ; every write of value index v writes one canonical entity (omitempty slices, nested pointers, maps with value-dependent keys, a field with a pointer-receiver JSON codec) and the dump checks deep equality with it",
- "C05": " + panic values whose Error()/String() panic (typed nil error), SetPanicHandler between publishes, a nil subscribe option, option values shared between subscriptions",
+ "C05": " + panic values whose Error()/String() panic (typed nil error), SetPanicHandler between publishes, a nil subscribe option, option values shared between subscriptions + livepanic05 (the handler of a resumable subscription, synchronous or Async+Sequential, memory or SQLite store, panics on a live event: contained, the later handler and every later publish are served, Wait returns)",
  "C01": " + 46 types hitting all 32 shards (first/last shard favoured), an event type that is json.RawMessage itself and one published as a pointer, once handlers whose body swaps a registration of their own type, nil subscribe option",
 }
 # parts added in the third session (rounds 6 and 7, unexercised API, automatic mutants)
